@@ -58,6 +58,11 @@ def target_case(draw):
         if k == "float":
             return draw(st.sampled_from(FLOAT_VALUES))
         if k == "int":
+            if dim is None and tkw in ("int64", "uint64") and draw(st.integers(0, 4)) == 0:
+                # beyond 2**53: not representable as a double, the node must still hold exactly what was written
+                big = ["9007199254740993", "1234567890123456789", "4611686018427387905"]
+                return draw(st.sampled_from(big + (["-1234567890123456789", "-9007199254740993"] if tkw == "int64" else
+                                                   ["18446744073709551615"])))
             return draw(st.sampled_from(INT_VALUES if not tkw.startswith("u") else [v for v in INT_VALUES if not v.startswith("-")]))
         if k == "bool":
             return draw(st.sampled_from(["true", "false", "false"]))
@@ -105,7 +110,9 @@ def target_case(draw):
             "fail_at": draw(st.integers(0, nmods - 1)), "indent": draw(st.integers(1, 3)),
             # two-stage parsing: the first `split` modifications are parsed with the definition, the rest on top of
             # the returned environment (DIP(env)); 0 = everything in one parse
-            "split": draw(st.sampled_from([0, 0, 0, 1, 2]))}
+            "split": draw(st.sampled_from([0, 0, 0, 1, 2])),
+            # an earlier, unrelated parse in the same process that defined the custom unit of the same name differently
+            "prelude": draw(st.sampled_from([None, "7", "0.5"])) if use_custom else None}
 
 
 def strategies(tier):
@@ -237,6 +244,17 @@ def _check(case, v):
     stage1, stage2 = render_stages(case)
     text = stage1 if stage2 is None else stage1 + "\n# ---- parsed on top of the returned environment ----\n" + stage2
     path = ".".join(case["groups"] + [case["name"]])
+    if case.get("prelude"):
+        n_, _v, u_ = CUSTOM[case["dim"]]
+        pre = f"$unit {n_} = {case['prelude']} {u_}\nw float = 1 {u_}\nw = 3 [{n_}]"
+        text = f"# ---- an earlier parse in the same process ----\n{pre}\n# ---- this parse ----\n" + text
+        try:
+            with DIP(name=f"c14_{next(_uid)}") as p0:
+                p0.add_string(pre)
+                p0.parse().data()
+        except Exception as e:
+            return v.fail("parse-raised", f"the earlier parse raised {e!r}:\n{pre}")
+        v.label("earlier_parse_defined_the_unit_differently")
     try:
         with DIP(name=f"c14_{next(_uid)}") as p:
             p.add_string(stage1)
@@ -277,8 +295,12 @@ def _check(case, v):
     elif case["kind"] in ("float", "int"):
         ok = not isinstance(got, (bool, str, list)) and close(got, exp, 1e-9, 1e-300)
         if case["kind"] == "int" and ok:
-            # an integer node holds an integer, also after a conversion whose float factor is inexact (1 us -> 1000 ns)
-            ok = isinstance(got, int) and got == int(round(float(exp)))
+            # an integer node holds an integer, also after a conversion whose float factor is inexact (1 us -> 1000 ns),
+            # and exactly the integer written when no conversion took place (also beyond 2**53)
+            ok = isinstance(got, int) and (got == exp if isinstance(exp, int) else
+                                           abs(got - exp) <= max(0.5, 1e-9 * abs(exp)))
+            if abs(exp) > 2 ** 53:
+                v.label("int_beyond_2**53")
     elif case["kind"] == "farray":
         ok = isinstance(got, list) and len(got) == len(exp) and all(close(a, b, 1e-9, 1e-300) for a, b in zip(got, exp))
     else:
